@@ -19,6 +19,7 @@ Events are JSON lists:
     ["mutate", prop, route, tbl]    in-place mutation of the value served            (C10)
     ["pickle", route, tbl]          pickle round trip of the atom                     (C10)
     ["formula", string, tbl]        formula(string, table=T): table membership        (C10)
+    ["ambient", name]               a perturbation of pbt/ambient.py applied at that point of the history  (C09)
     ["crowd", n]                    n further private tables, each used for a parse                    (C10)
     ["keepdrop", tbl]               keep atoms of T, drop the table object, restore the atoms by pickle/copy   (C10)
 tbl is "public", "T1" or "T2".
@@ -568,6 +569,12 @@ def do_event(w, ev):
         if iso:
             mine = mine[iso]
         return [repr(a), TABLE_LABELS.get(a.table, a.table), a is mine]
+    if kind == "ambient":
+        # ["ambient", name]: the caller changes process state in the middle of a history (pbt/ambient.py), e.g. turns
+        # warnings into errors before the first touch of a group
+        from . import ambient
+        ambient.enter([ev[1]], 0, "", "history", "/repo")
+        return "ok"
     if kind == "crowd":
         # ["crowd", n]: n further private tables are created and each parses two formula strings (a service with one
         # table per user); returns the crowd tables whose formulas hold atoms of another table
